@@ -69,8 +69,11 @@ type c08Case struct {
 	// BodyLen bytes follow the header (for valid lengths: Len-19)
 	BodyLen int    `json:"body_len"`
 	Cuts    []int  `json:"cuts,omitempty"`
-	Field   string `json:"field"` // which field the generator perturbed (for the class)
+	Field   string `json:"field"`           // which field the generator perturbed (for the class)
 	Hold0   bool   `json:"hold0,omitempty"` // the peer is configured with hold time 0
+	// Prev: earlier sessions of the same peer (outbound: on the same FSM object); what
+	// they received must have no bearing on the connection under test
+	Prev []world.PrevSession `json:"prev,omitempty"`
 }
 
 func (c c08Case) faults() (marker, length, typ bool) {
@@ -120,7 +123,8 @@ func c08Prop(t *testing.T, r *hx.Run, sub string) func(c c08Case) hx.Verdict {
 				dev = hx.Devf(key, f, a...)
 			}
 		}
-		o, serr := world.Single(t, "10.0.0.1", p, c.Out, nil, func(w *world.World, conn *memnet.Conn) {
+		o, serr := world.SinglePrev(t, "10.0.0.1", p, c.Out, nil, c.Prev, func(w *world.World, conn *memnet.Conn) {
+			evBase := len(w.Rec.Events())
 			var stream []byte
 			for _, m := range handshakeBytes(p, conn, c.State, 90) {
 				if c.Shared {
@@ -167,7 +171,7 @@ func c08Prop(t *testing.T, r *hx.Run, sub string) func(c c08Case) hx.Verdict {
 			after := msgs[want:]
 			var upds [][]byte
 			est := 0
-			for _, e := range w.Rec.Events() {
+			for _, e := range w.Rec.Events()[evBase:] {
 				switch e.K {
 				case "upd+":
 					upds = append(upds, e.Data)
@@ -334,6 +338,11 @@ func genC08(rt *rapid.T) c08Case {
 		total += 19 + 40
 	}
 	c.Cuts = genCuts(rt, total)
+	if rapid.IntRange(0, 3).Draw(rt, "withprev") == 0 {
+		for i, n := 0, rapid.IntRange(1, 2).Draw(rt, "nprev"); i < n; i++ {
+			c.Prev = append(c.Prev, world.PrevSession{Hold: pick[uint16](rt, "prevhold", 0, 3, 90), End: pick(rt, "prevend", "fin", "cease", "cease+junk", "cease+junk")})
+		}
+	}
 	return c
 }
 
